@@ -8,7 +8,7 @@
    (independent printer) -> the real parser -> all 18 fields; move lists of generated games -> final fields + history keys;
    acceptance / rejection of mutated move strings; the `d` display through the real main loop. *)
 From Coq Require Import NArith ZArith List Bool String.
-From JV Require Import Gen.Consts Model.Chess Model.SearchChess Model.Fen Model.Abs Proofs.FenProofs Proofs.UciProofs Proofs.LegalInv Proofs.RulesUci.
+From JV Require Import Gen.Consts Model.Chess Model.SearchChess Model.Fen Model.Abs Proofs.FenProofs Proofs.UciProofs Proofs.LegalInv Proofs.RulesUci Proofs.StartPos Proofs.PositionInv.
 Import ListNotations.
 
 Theorem C05_accepts_only_legal : forall g tok m, parse_move g tok = Some m -> In m (legal_moves g) /\ to_uci m = tok.
@@ -39,6 +39,15 @@ Theorem C05_every_legal_move_of_the_rules_is_accepted : forall g sm, legal_inv g
   exists m, umove m = sm /\ parse_move g (to_uci m) = Some m.
 Proof. exact rules_legal_has_accepted_token. Qed.
 
+(* every position the engine is put into by `position startpos [moves ...]` is reachable from the start position by accepted generated
+   moves and satisfies the invariant -- so the theorems stated under legal_inv (C01, C02, C03, C06, C12, C14, C16 ...) apply to every
+   position of every game; the same for `position fen F moves ...` when the position F describes satisfies it *)
+Theorem C05_startpos_games_stay_inside_the_invariant : forall args g rep, List.hd EmptyString (split_sp args) = "startpos"%string ->
+  parse_position args = FOk (g, rep) -> chess_reach start_game g /\ legal_inv g.
+Proof. intros args g rep HD H. split; [exact (position_startpos_reachable args g rep HD H)|exact (position_startpos_inv args g rep HD H)]. Qed.
+Theorem C05_moves_preserve_the_invariant : forall toks g rep g' rep', legal_inv g -> play_moves g rep toks = FOk (g', rep') -> legal_inv g'.
+Proof. exact play_moves_inv. Qed.
+
 Theorem C05_history_recorded : forall args g rep,
   parse_position args = FOk (g, rep) -> exists base ps, rep = hash base :: map hash ps /\ g = last ps base.
 Proof. exact parse_position_history. Qed.
@@ -56,3 +65,5 @@ Print Assumptions C05_acceptance_is_exact.
 Print Assumptions C05_accepted_move_is_legal_under_the_rules.
 Print Assumptions C05_every_legal_move_of_the_rules_is_accepted.
 Print Assumptions C05_history_recorded.
+Print Assumptions C05_startpos_games_stay_inside_the_invariant.
+Print Assumptions C05_moves_preserve_the_invariant.
